@@ -1,6 +1,7 @@
 package worker
 
 import (
+	"encoding/json"
 	"fmt"
 	"math"
 	"strings"
@@ -62,7 +63,11 @@ func genLoop(family string, seed uint64, tier string, o loopOpts) *world.Scenari
 		var prog world.TempProg
 		switch {
 		case o.constCurve:
-			prog = constTemp(tempForCurve(r.Range(0, 255)))
+			cv := r.Range(0, 255)
+			if kernel.NewRand(seed, fmt.Sprintf("loop.saturated.%d", i)).Bool(0.2) {
+				cv = 255 // a saturated curve (hot machine) is an everyday state, not a 1-in-256 draw
+			}
+			prog = constTemp(tempForCurve(cv))
 		case o.absurdTemps && r.Bool(0.6):
 			prog = world.TempProg{Kind: "steps", Base: kernel.Pick(r, absurdTemps...)}
 			t := 3.0
@@ -229,6 +234,16 @@ func genLoop(family string, seed uint64, tier string, o loopOpts) *world.Scenari
 		if kind == "hwmon" {
 			preseedRpmCurve(sc, f.ID, linearRpmCurve(curveStart, curveMaxEff, f.Plant.MaxRpm))
 		}
+		if f.PwmMap != nil && kernel.NewRand(seed, "loop.stalemap."+f.ID).Bool(0.3) {
+			// the database still holds a PWM map of this fan from an earlier run (before the user wrote a
+			// pwmMap into the configuration): another map than the configured one, which is the one in force
+			stale := map[int]int{}
+			for k := 0; k <= 255; k++ {
+				stale[k] = min(255, k+9)
+			}
+			b, _ := json.Marshal(stale)
+			sc.DB = append(sc.DB, world.DBEntry{Bucket: "fanPwmMap", Key: f.ID, Value: string(b)})
+		}
 		sc.Fans = append(sc.Fans, f)
 		// faults during regulation only
 		if o.faultP > 0 && r.Bool(o.faultP) {
@@ -352,6 +367,8 @@ type loopOracle struct {
 }
 
 type loopFan struct {
+	prevClean    *Cycle // previous cycle if it was observable
+	obsRaises    int    // raises seen in the request sequence itself
 	polluted     bool
 	lastWriteSeq int // sequence number of the last regulating write that reached the file
 	envSeq       int // sequence number of the last third-party interference with this fan
@@ -522,6 +539,24 @@ func (o *loopOracle) onCycle(c *Cycle) {
 			res.Violate("C02", "min-never-drops", "min-never-drops "+sig, c.EndPSeq, c.EndT,
 				"fan %s: reported minimum dropped from %d to %d (cycle #%d)", c.Fan, lf.floorMax, c.After.MinPwm, c.Index)
 		}
+		// raises as they show in the requests themselves (not fan2go's own counter): with the plain direct
+		// algorithm the request is a function of curve value and minimum, so a request one higher than the
+		// previous one at an unchanged curve value is a raise - and it is permanent like any other
+		if directNoLimit(lf.spec) {
+			if p := lf.prevClean; p != nil && p.Index == c.Index-1 && p.After.CurveVal == c.After.CurveVal && req == p.After.Pwm+1 {
+				lf.obsRaises++
+				res.Probe("raise-observed-in-requests")
+			}
+			if lf.obsRaises > 0 && req < lf.lo+lf.obsRaises {
+				res.Violate("C02", "raise-permanent", "raise-permanent(observed) "+sig, c.EndPSeq, c.EndT,
+					"fan %s: the requests show %d raise(s) of minimum %d (fan2go counts %d), yet the request is %d (cycle #%d)", c.Fan, lf.obsRaises, lf.lo, c.After.Raises, req, c.Index)
+			}
+		}
+	}
+	if faulty {
+		lf.prevClean = nil
+	} else {
+		lf.prevClean = c
 	}
 	if c.After.MinPwm > lf.floorMax {
 		lf.floorMax = c.After.MinPwm
@@ -532,11 +567,14 @@ func (o *loopOracle) onCycle(c *Cycle) {
 		lf.raises = c.After.Raises
 		lf.lastRaiseAt = lf.polls
 		lf.pollsAtZero = 0
-		lf.atMaxZero = 0
 	} else if !lf.reqStable {
 		// the request moved for another reason than a raise: the premise
 		// "request unchanged" starts over
 		lf.pollsAtZero = 0
+	}
+	if req < lf.hi {
+		// at or beyond the maximum neither a "raise" nor a moving request is progress any more: what is
+		// left to do there is to report the stall and hand the fan back
 		lf.atMaxZero = 0
 	}
 	lf.lastReq = req
